@@ -656,7 +656,7 @@ def main():
         sys.exit(replay(args.replay))
     tier = driver.tier_from(args.tier)
     seed = driver.seed_from_env()
-    total = args.scenarios or (2400 if tier == "quick" else 40000)
+    total = args.scenarios or (2400 if tier == "quick" else 20000)
     nshards = 96 if tier == "quick" else 512
     per = (total + nshards - 1) // nshards
     payloads = [(seed, s, s * per, min(total, (s + 1) * per), tier)
